@@ -7,10 +7,11 @@ mkdir -p .build .work .cache evidence replays
 ( cd go/factgen && go build -o ../../.build/factgen . )
 ( cd go/harness && cp /repo/go.sum . 2>/dev/null; go build -tags verif -o ../../.build/harness . )
 mkdir -p .work/setup-extracted
-./.build/factgen /repo .work/setup-extracted
+./.build/factgen /repo .work/setup-extracted go/factgen/wants.d
 for f in .work/setup-extracted/*.lean; do
   cmp -s "$f" "lean/Mkts/Extracted/$(basename "$f")" || cp "$f" "lean/Mkts/Extracted/$(basename "$f")"
 done
 rm -rf .work/setup-extracted
+python3 lib/genall.py
 ( cd lean && lake build Mkts mktsdrv 2>&1 | tail -5 )
 echo setup done
